@@ -666,10 +666,14 @@ def aoh_default_governs_non_aoh(case, obs):
                     if walk(lv[k], v, p):
                         return True
         if isinstance(lv, list) and isinstance(rv, list):
+            # a right-hand record is merged (aoh=deep) into a left record or into a right-hand
+            # record appended before it
+            pool = list(lv)
             for e in rv:
-                for x in lv:
+                for x in pool:
                     if isinstance(e, dict) and isinstance(x, dict) and walk(x, e, path):
                         return True
+                pool.append(e)
         return False
     if isinstance(l, list) and isinstance(r, dict):
         return any(isinstance(x, dict) and walk(x, r, "/") for x in l)
